@@ -458,14 +458,21 @@ class ResizingOperator(Operator):
 def _offset_from_spaces(dom, ran):
     """Return index offset corresponding to given spaces."""
     affected = np.not_equal(dom.shape, ran.shape)
-    diff_l = np.abs(ran.grid.min() - dom.grid.min())
-    offset_float = diff_l / dom.cell_sides
+    shift = (ran.grid.min() - dom.grid.min()) / dom.cell_sides
+    # The larger space must start to the left of (or at) the smaller one
+    grows = np.greater(ran.shape, dom.shape)
+    offset_float = np.where(grows, -shift, shift)
     offset = np.around(offset_float).astype(int)
     for i in range(dom.ndim):
         if affected[i] and not np.isclose(offset[i], offset_float[i]):
             raise ValueError('in axis {}: range is shifted relative to domain '
                              'by a non-multiple {} of cell_sides'
                              ''.format(i, offset_float[i] - offset[i]))
+        if affected[i] and not (0 <= offset[i] <=
+                                abs(ran.shape[i] - dom.shape[i])):
+            raise ValueError('in axis {}: the larger of domain and range does '
+                             'not contain the smaller one (offset {})'
+                             ''.format(i, offset[i]))
     offset[~affected] = 0
     return tuple(offset)
 
